@@ -79,11 +79,12 @@ theorem plugins_eq : plugins = ["custom-auth", "gzip", "headers", "logging", "re
 `Stop` cancels, joins the health-check loop, only then waits for the probes, then shuts the
 pool; `healthCheckWg.Add` is called only from the fan-out, which only the loop goroutine
 runs; a probe looks at the context before doing anything and its request is bound to it;
-the process-level shutdown drains the HTTP server before stopping the balancer. -/
+the process-level shutdown drains the HTTP server before stopping the balancer, and stops the
+balancer on every path (also when draining ran into the shutdown timeout). -/
 theorem shutdown_protocol :
     stopSequence = ["cancel", "joinLoop", "wgWait", "poolShutdown"] ∧
     wgAddFuncs = ["checkBackendsHealth"] ∧ fanoutCallers = ["startActiveHealthChecks"] ∧
     probeChecksCtxFirst = true ∧ probeBoundToCtx = true ∧
-    gracefulSequence = ["serverShutdown", "lbStop"] := by decide
+    gracefulSequence = ["serverShutdown", "lbStop"] ∧ gracefulStopAlways = true := by decide
 
 end Helios.Facts
